@@ -242,6 +242,9 @@ package tls
 //@   let tr = hs.transcript
 //@   requires hs != nil && hs.c != nil
 //@   ensures noalps: cp == 0 ==> ret == nil
+//@   ensures sent: cp != 0 ==> called(writeHandshakeRecord, 0)
+//@   ensures notsent: cp == 0 ==> !called(writeHandshakeRecord, 0)
+//@   note sent/notsent: the client EncryptedExtensions message is written exactly when ALPS was negotiated, whatever the local settings are (an empty settings value is still sent)
 //@   note the error of writeHandshakeRecord is returned unchanged; not stated: callres() of a two-result call has no projection in the contract language
 //@   at before call writeHandshakeRecord#0: assert conn: arg0 == c
 //@   at before call writeHandshakeRecord#0: assert msgtype: istype(arg1, *utlsClientEncryptedExtensionsMsg)
